@@ -11,8 +11,8 @@ Open Scope Z_scope.
 
 (* wf c: 1 <= bits, 0 <= n < 2^(bits-1) (n fits the signed shared counters), 1 <= nprocs;
    chunk (None or any integer) and the schedule kind are unconstrained. *)
-Example C15_wf_ex : wf (mk_cfg 7 2 None Guided 32) /\ wf (mk_cfg 0 1 (Some 0) Static 32) /\
-                    wf (mk_cfg (2 ^ 31 - 1) 4 (Some (-3)) Dynamic 32).
+Example C15_wf_ex : wf (mk_cfg 7 2 None Guided 64) /\ wf (mk_cfg 0 1 (Some 0) Static 64) /\
+                    wf (mk_cfg (2 ^ 31 - 1) 4 (Some (-3)) Dynamic 32) /\ wf (mk_cfg (2 ^ 63 - 1) 3 None Guided 64).
 Proof. unfold wf; cbn. lia. Qed.
 
 (* at most one worker is between acquire and release; it is the lock holder, and the lock is held only so *)
@@ -154,3 +154,9 @@ Proof.
   - unfold wf. cbn. lia.
 Qed.
 Print Assumptions C15_counter_width_needed.
+(* with 64-bit counters (ctypes.c_longlong, the width the harness observes on the real object) the same
+   configuration is well-formed and the single worker receives the whole range *)
+Example C15_wide_counter_ex :
+  let c := mk_cfg (2 ^ 32 + 3) 1 None Static 64 in
+  wf c /\ slices (run c (repeat 0%nat 11)) = [(0, 2 ^ 32 + 3)] /\ pcs (run c (repeat 0%nat 11)) 0%nat = PDone.
+Proof. cbn zeta. split; [unfold wf; cbn; lia|]. vm_compute. split; reflexivity. Qed.
